@@ -17,6 +17,7 @@
 #include <unistd.h>
 #include "../core/prng.h"
 #include "../core/json.hpp"
+#include "../core/mutate.hpp"
 #include "rt.hpp"
 
 extern "C" {
@@ -351,7 +352,7 @@ static Plan gen_plan(const string &cfg, uint64_t seed, long long index) {
     int per = p.nthreads >= 8 ? 1 + (int)sim_below(&w, 8) : 1 + (int)sim_below(&w, 30);
     if (sim_below(&w, 3) == 0) per = 1 + (int)sim_below(&w, 4);
     int npool = 1 + (int)sim_below(&w, 8);
-    vector<string> pool; for (int i = 0; i < npool; i++) pool.push_back(g_pool[sim_below(&w, g_pool.size())]);
+    vector<string> pool; for (int i = 0; i < npool; i++) { pool.push_back(g_pool[sim_below(&w, g_pool.size())]); if (sim_below(&w, 5) == 0) pool.back() = mut::mutate(&w, pool.back()); }
     if (!g_pairs.empty() && sim_below(&w, 3) == 0) {            // related strings, so that one thread's answer is wrong for another
         int np = 1 + (int)sim_below(&w, 2);
         if (sim_below(&w, 2)) pool.clear();
